@@ -28,6 +28,7 @@ type c18Silent struct {
 	port     int
 	mu       sync.Mutex
 	sessions int
+	active   int // connections with a session that are still open
 	conns    []*gossh.ServerConn
 }
 
@@ -98,6 +99,14 @@ func c18SilentServer(t *testing.T, signer gossh.Signer, id int, failing bool) *c
 				s.mu.Lock()
 				s.conns = append(s.conns, sc)
 				s.mu.Unlock()
+				hadSession := false
+				defer func() {
+					if hadSession {
+						s.mu.Lock()
+						s.active--
+						s.mu.Unlock()
+					}
+				}()
 				go gossh.DiscardRequests(reqs)
 				for nc := range chans {
 					if nc.ChannelType() != "session" {
@@ -110,7 +119,11 @@ func c18SilentServer(t *testing.T, signer gossh.Signer, id int, failing bool) *c
 					}
 					s.mu.Lock()
 					s.sessions++
+					if !hadSession {
+						s.active++
+					}
 					s.mu.Unlock()
+					hadSession = true
 					go func() {
 						for r := range rq {
 							if r.Type == "shell" {
@@ -180,7 +193,7 @@ func TestC18Throttle(t *testing.T) {
 		time.Sleep(50 * time.Millisecond)
 	}
 	got := contacted()
-	dropped, redialled := 0, 0
+	dropped, redialled, held := 0, 0, 0
 	if got == n {
 		time.Sleep(2500 * time.Millisecond) // one more round of dials to the failing entries (retry mode)
 		// three servers end their sessions: the retrying client connects to each of them again (and to nobody else twice)
@@ -208,6 +221,15 @@ func TestC18Throttle(t *testing.T) {
 			time.Sleep(50 * time.Millisecond)
 		}
 		redialled = again()
+		// ... and the new sessions are sessions: still up 1.6 s later (a follow goes on until the user ends it)
+		time.Sleep(1600 * time.Millisecond)
+		for _, v := range victims {
+			v.mu.Lock()
+			if v.sessions > before[v] && v.active > 0 {
+				held++
+			}
+			v.mu.Unlock()
+		}
 	}
 	c18LogMu.Lock()
 	c18LogOff = true
@@ -219,5 +241,5 @@ func TestC18Throttle(t *testing.T) {
 	case <-time.After(8 * time.Second):
 	}
 	vWriteJSON(t, "VERIF_OUT", map[string]interface{}{"servers": n, "failing": nfail, "contacted": got,
-		"capacity": runtime.NumCPU(), "dropped": dropped, "redialled": redialled, "trace": trace})
+		"capacity": runtime.NumCPU(), "dropped": dropped, "redialled": redialled, "held": held, "trace": trace})
 }
